@@ -114,6 +114,19 @@ hwloc_synthetic_process_indexes(struct hwloc_synthetic_backend_data_s *data,
 	attr = next;
       }
     }
+
+    /* duplicate indexes would give the same os_index (and cpuset/nodeset bit) to several objects */
+    {
+      size_t j;
+      for(i=1; i<total; i++)
+	for(j=0; j<i; j++)
+	  if (array[i] == array[j]) {
+	    if (verbose)
+	      fprintf(stderr, "Duplicate synthetic index %u at positions #%lu and #%lu\n", array[i], (unsigned long) j, (unsigned long) i);
+	    goto out_with_array;
+	  }
+    }
+
     indexes->array = array;
 
   } else {
